@@ -30,7 +30,7 @@ Theorem C05_lister_refuted : ~ (forall extras G, valid_grammar G -> pass_preserv
 Proof.
   intros H. specialize (H false lister_G lister_G_valid).
   set (G' := [{| rname := nm "r"; rty := RNormal; rexpr := ESeq (EStr (nm "a")) (ERep (ESeq (EStr (nm "b")) (EStr (nm "a")))) |}]).
-  specialize (H G' ltac:(vm_compute; reflexivity) (fun _ => None) lister_input NonAtomic true (EIdent (nm "r")) 0 []
+  specialize (H false G' ltac:(vm_compute; reflexivity) (fun _ => None) lister_input NonAtomic true (EIdent (nm "r")) 0 []
                 (SMatch 3 [] [Node 0 None 0 3 []]) valid_abab ltac:(constructor) ltac:(reflexivity) ltac:(constructor)).
   destruct H as [H _]. destruct H as [fuel [E _]].
   - exists 20. split; [vm_compute; reflexivity|discriminate].
@@ -76,7 +76,7 @@ Qed.
 (* The composition rotate ; skip (map = the original rules) ; unroll ; concatenate ; factor ; list, rule by rule as
    `optimize` chains them, for every valid grammar outside the decidable known class (the lister fires on the output of
    the five passes before it). *)
-Theorem C05_pipeline_outside_lister_class : forall extras G, valid_grammar G -> lister_class extras G = false -> pipeline_preserves extras G.
+Theorem C05_pipeline_outside_lister_class : forall extras G, valid_grammar G -> (forall ovf, lister_class ovf extras G = false) -> pipeline_preserves extras G.
 Proof. exact pipeline_preserves_outside_class. Qed.
 
 (* restore_on_err with fixes/C05-1 and fixes/C05-2 applied (the model flags the correspondence selects for such a tree):
@@ -87,7 +87,7 @@ Theorem C05_restorer_fixed : forall extras G, valid_grammar G ->
 Proof. exact restorer_fixed. Qed.
 
 (* the statement for the patched code, outside the known class *)
-Theorem C05_fixed_outside_lister_class : forall extras G, valid_grammar G -> lister_applies G = false -> lister_class extras G = false ->
+Theorem C05_fixed_outside_lister_class : forall extras G, valid_grammar G -> lister_applies G = false -> (forall ovf, lister_class ovf extras G = false) ->
   (forall k, k <= 5 -> pass_preserves extras k G) /\ pipeline_preserves extras G /\
   (forall OG, to_optimized_rules extras true true false G = Some OG -> restorer_ok true true OG).
 Proof.
@@ -98,24 +98,24 @@ Proof.
 Qed.
 
 (* non-vacuity: the statement speaks about grammars on which the rewrites fire *)
-Example rotate_fires : apply_pass false 0 [{| rname := nm "r"; rty := RNormal; rexpr := ESeq (ESeq (EStr (nm "a")) (EStr (nm "b"))) (EStr (nm "a")) |}]
+Example rotate_fires : apply_pass false false 0 [{| rname := nm "r"; rty := RNormal; rexpr := ESeq (ESeq (EStr (nm "a")) (EStr (nm "b"))) (EStr (nm "a")) |}]
   = Some [{| rname := nm "r"; rty := RNormal; rexpr := ESeq (EStr (nm "a")) (ESeq (EStr (nm "b")) (EStr (nm "a"))) |}].
 Proof. vm_compute. reflexivity. Qed.
-Example factor_fires : apply_pass false 4 [{| rname := nm "r"; rty := RAtomic; rexpr := EChoice (ESeq (EStr (nm "a")) (EStr (nm "b"))) (EStr (nm "a")) |}]
+Example factor_fires : apply_pass false false 4 [{| rname := nm "r"; rty := RAtomic; rexpr := EChoice (ESeq (EStr (nm "a")) (EStr (nm "b"))) (EStr (nm "a")) |}]
   = Some [{| rname := nm "r"; rty := RAtomic; rexpr := ESeq (EStr (nm "a")) (EOpt (EStr (nm "b"))) |}].
 Proof. vm_compute. reflexivity. Qed.
-Example concat_fires : apply_pass false 3 [{| rname := nm "r"; rty := RAtomic; rexpr := ESeq (EInsens (nm "a")) (EInsens (nm "b")) |}]
+Example concat_fires : apply_pass false false 3 [{| rname := nm "r"; rty := RAtomic; rexpr := ESeq (EInsens (nm "a")) (EInsens (nm "b")) |}]
   = Some [{| rname := nm "r"; rty := RAtomic; rexpr := EInsens (nm "ab") |}].
 Proof. vm_compute. reflexivity. Qed.
-Example unroll_fires : apply_pass false 2 [{| rname := nm "r"; rty := RNormal; rexpr := ERepMinMax (EStr (nm "a")) 1 2 |}]
+Example unroll_fires : apply_pass false false 2 [{| rname := nm "r"; rty := RNormal; rexpr := ERepMinMax (EStr (nm "a")) 1 2 |}]
   = Some [{| rname := nm "r"; rty := RNormal; rexpr := ESeq (EStr (nm "a")) (EOpt (EStr (nm "a"))) |}].
 Proof. vm_compute. reflexivity. Qed.
-Example skip_fires : apply_pass false 1 [{| rname := nm "r"; rty := RAtomic; rexpr := ERep (ESeq (ENegPred (EChoice (EStr (nm "a")) (EIdent (nm "s")))) (EIdent (nm "ANY"))) |};
+Example skip_fires : apply_pass false false 1 [{| rname := nm "r"; rty := RAtomic; rexpr := ERep (ESeq (ENegPred (EChoice (EStr (nm "a")) (EIdent (nm "s")))) (EIdent (nm "ANY"))) |};
                                        {| rname := nm "s"; rty := RNormal; rexpr := EStr (nm "b") |}]
   = Some [{| rname := nm "r"; rty := RAtomic; rexpr := ESkip [nm "a"; nm "b"] |}; {| rname := nm "s"; rty := RNormal; rexpr := EStr (nm "b") |}].
 Proof. vm_compute. reflexivity. Qed.
 Example lister_G_is_valid : valid_grammar lister_G. Proof. exact lister_G_valid. Qed.
-Example lister_G_in_class : lister_class false lister_G = true. Proof. vm_compute. reflexivity. Qed.
+Example lister_G_in_class : lister_class false false lister_G = true. Proof. vm_compute. reflexivity. Qed.
 
 Print Assumptions C05_lister_refuted.
 Print Assumptions C05_statement_refuted.
